@@ -62,6 +62,7 @@ type Enc struct {
 	c        *Ctx
 	l        *Layout
 	objTypes *ObjTypes
+	ixWrap   bool
 }
 
 // ObjTypes gives every object an allocation-type tag so that type-safe
@@ -239,7 +240,7 @@ func (e *Enc) wfInto(s *State, t types.Type, L []string, fs *[]string, depth int
 		}
 		return 1
 	case *types.Pointer:
-		*fs = append(*fs, "(<= 0 "+L[0]+")", "(< "+L[0]+" "+s.alloc+")")
+		*fs = append(*fs, "(<= 0 "+L[0]+")", "(< "+L[0]+" "+s.alloc+")", "(bvult "+L[1]+" "+bv64(maxLen)+")", "(bvult "+L[2]+" "+bv64(maxLen)+")")
 		if e.objTypes != nil {
 			*fs = append(*fs, e.objTypes.ptrFact(e.l, u.Elem(), L[0]))
 		}
